@@ -10,7 +10,8 @@ def tasks(tier):
             # (which outputs trigger whom, with which delay: the tables connect_one builds, served under C11)
             + contract_tasks("contracts.connect", "C11", tier=tier)
             + other_tasks("contracts.closure", "C02", "bounded") + other_tasks("contracts.determinism_bounded", "C02", "bounded")
-            + other_tasks("contracts.connect_bounded", "C02", "bounded"))
+            + other_tasks("contracts.connect_bounded", "C02", "bounded")
+            + contract_tasks("contracts.tiered_time", "C08"))
 
 
 TRUSTED_BASE = TRUSTED_CORE
